@@ -80,6 +80,12 @@ def run(ck, pid, tier, seed):
                   # beyond exhaustive reach: random behaviours of a larger instance
                   dict(n=4, r=3, rq=2, ioq=2, a=2, faults=2, cancel=T, head=T, old=T, live=False,
                        dest='nonseekable', w=2, sim='num=20000')]
+    if tier != 'thorough':
+        # every property checks the first two configurations and two of the
+        # others in rotation (all of them are covered across the properties)
+        k = int(pid[1:])
+        rest = confs[2:]
+        confs = confs[:2] + [rest[(k + i) % len(rest)] for i in range(min(2, len(rest)))]
     for c in confs:
         c.setdefault('dest', 'path')
         c.setdefault('w', 2)
